@@ -63,7 +63,7 @@ package limiter
 //@   ensures[C02,C20] gauge: ret1 ==> *l.inFlight == old(*l.inFlight) + 1 && ncalls("atomic.Add") == 1
 //@   ensures[C02,C09] listener_fields: ret1 ==> dyntype(ret0, "*limiter.DefaultListener") && fresh(ref(ret0)) && dl(ret0).token == callres("core.Strategy.TryAcquire", 0, 0) && dl(ret0).inFlight == l.inFlight && dl(ret0).limiter == l && dl(ret0).currentMaxInFlight == *l.inFlight && dl(ret0).minRTTThreshold == l.minRTTThreshold && dl(ret0).nextUpdateTime == l.nextUpdateTime && dl(ret0).startTime == callres("time.Now", 0, 0)
 //@   ensures[C09] window_untouched: l.sample == old(l.sample) && l.nextUpdateTime == old(l.nextUpdateTime)
-//@   owns[C17]
+//@   owns[C01,C17]
 
 //@ define dl(x core.Listener) *limiter.DefaultListener = as(x, "*limiter.DefaultListener")
 
